@@ -133,6 +133,12 @@ M["M8_own_incomplete_forward_dropped"] = [
      "\t\t\tdefault:\n\t\t\t\tdrops = append(drops, circuit)\n"),
 ]
 
+# own #6 (switch.go): of several incomplete forwards found in one replayed
+# batch only the first is failed back (slice bound regression).
+M["M9_own_only_first_incomplete_forward_failed"] = [
+    (SWITCH, "\t\tfor _, packet := range failedPackets {\n", "\t\tfor _, packet := range failedPackets[:1] {\n"),
+]
+
 
 def build(name):
     if isinstance(M[name], str):
